@@ -200,6 +200,15 @@ def cases_c02(types, rng, tier):
                     kp = keyspec_path(as_strings(ks))
                     if kp is not None:
                         reps.append(("path", kp, as_strings(ks)))
+                    # the same keys behind a multi-byte path separator, and as a Chain of two sources split anywhere — including
+                    # ALL keys (surplus ones too) in the first part with an empty second part, and the mirror image
+                    if vname in ("exact", "surplus1", "surplus2") or rng.random() < 0.15:
+                        for sep in ("é", "😀"):
+                            kq = keyspec_path(as_strings(ks), sep)
+                            if kq is not None and rng.random() < 0.5:
+                                reps.append((f"path{ord(sep)}", kq, as_strings(ks)))
+                        cut = rng.choice([0, len(ks), rng.randrange(len(ks) + 1)])
+                        reps.append(("chain", f"C[{keyspec_list(ks[:cut])}][{keyspec_list(ks[cut:])}]", ks))
                     for rname, spec, kabs in reps:
                         pay = (payload_for(n, rng) if kind == "leaf" else None) or "0"
                         ops, exp = [], []
@@ -261,6 +270,21 @@ def cases_c01(types, rng, tier):
                 if keys:
                     cut = rng.randrange(len(keys) + 1)
                     chains.append(("chain-exact", keys, f"C[{keyspec_list(keys[:cut])}][{keyspec_list(keys[cut:])}]"))
+                # the same leaf through a Packed key: exact, and with surplus ZERO bits behind it (a key that is longer than
+                # the path to the leaf is TooLong whatever the surplus bits are)
+                if kind == "leaf":
+                    node_, l_, c_ = inst, 0, 0
+                    for i_ in idx:
+                        nn_ = node_children(node_)
+                        cnt_ = len(nn_["elems"]) if nn_["k"] == "array" else len(nn_["fields"])
+                        b_ = T.S.bits_for(cnt_ - 1)
+                        l_, c_ = l_ + b_, (c_ << b_) | i_
+                        node_ = nn_["elems"][i_] if nn_["k"] == "array" else nn_["fields"][i_]["inst"]
+                    if l_ <= 60:
+                        chains.append(("packed-exact", keys, f"Q:{((2 * c_ + 1) << (63 - l_)) & ((1 << 64) - 1)}"))
+                        for extra in (1, 3):
+                            chains.append(("packed-surplus0", keys + [("s", "")],
+                                           f"Q:{((2 * (c_ << extra) + 1) << (63 - l_ - extra)) & ((1 << 64) - 1)}"))
                 for vname, ks, *cspec in [(a_, b_) for a_, b_ in variants + mal] + chains:
                     pay = (payload_for(n, rng) if kind == "leaf" else None) or "1"
                     e = O.Expect(inst, {})
@@ -425,7 +449,7 @@ def cases_c05(types, rng, tier):
                 if kind != "leaf" or n["lk"] == "deny" or n["ty"] in ("f32", "f64"):
                     continue
                 probe = O.Expect(inst, {}).run("jget", keys, BIG)
-                if probe is None or probe.startswith("ok"):
+                if probe is None:
                     continue
                 pay = payload_for(n, rng)
                 if pay is None:
@@ -434,8 +458,13 @@ def cases_c05(types, rng, tier):
                 e = O.Expect(inst, {})
                 ops = [f"jset|{spec}|{enc(pay)}", f"jget|{spec}|{BIG}", "snap"]
                 exp = [e.run("jset", keys, pay), e.run("jget", keys, BIG), "snap=" + O.snap_text(e.inst)]
-                c.add(t, st["sid"], {}, ops, exp, f"write/read of the unreachable leaf {keys} on {t['label']} state {st['sid']}",
-                      "unreachable")
+                # a leaf that IS reachable in this state (e.g. behind a RefCell with an outstanding shared borrow, an Rc with
+                # a second owner on the read side) must round-trip exactly as in state 0
+                reach = probe.startswith("ok")
+                if not e.float_hit:
+                    c.add(t, st["sid"], {}, ops, exp,
+                          f"write/read of the {'reachable' if reach else 'unreachable'} leaf {keys} on {t['label']} state {st['sid']}",
+                          "other-state" if reach else "unreachable")
         st = t["states"][0]
         inst = st["inst"]
         for keys, idx, kind, n in paths(inst, limit=40):
